@@ -11,6 +11,7 @@ package suites
 //	cap.enum       as cap.session; the fixed part is the COMPLETE set of sessions of at most 3
 //	               steps over a 9-letter alphabet of server lines (incl. a reconnect) under 3
 //	               configurations; the generated part draws longer sequences over the alphabet.
+//	cap.tagsrace   the tag gate under a blocked socket write (see the comment at runTagsRace).
 //	cap.ackremoval as cap.session, but the generated ACK lines may carry "-name" tokens
 //	               (IRCv3: the server acknowledges that the capability was DISABLED).
 //
@@ -40,6 +41,7 @@ import (
 	"bufio"
 	"crypto/tls"
 	"fmt"
+	"io"
 	"math/rand"
 	"net"
 	"sort"
@@ -1267,5 +1269,268 @@ func init() {
 			return c
 		},
 		Run: func(c Case) Result { return runCapSession(c) },
+	})
+}
+
+// ---- cap.tagsrace: the tag gate is evaluated when sendLoop takes the event off the queue
+//
+// "message tags are put on the wire only while message-tags is enabled": the wire write
+// happens when sendLoop dequeues an event, which can be long after Client.Send queued it.
+// The scripted server reads only when told to (in the goroutine of the test, no free-running
+// reader), so the schedule is deterministic on the unbuffered pipe:
+//
+//	1. the CAP lines of `pre` are handled (Client.RunHandlers returns when the handlers have);
+//	   an untagged fence is sent and read, so the queue is empty and sendLoop idle;
+//	2. the tagged event A is sent and the server reads its first 3 bytes only: sendLoop has
+//	   dequeued A (its gate is decided by `pre`) and is blocked inside the socket write;
+//	3. the events B_j (tags {k:v} / empty map / nil) are queued behind it;
+//	4. the CAP lines of `mid` are handled while everything is still blocked;
+//	5. an untagged fence is queued and the server reads to the fence.
+//
+// Every B_j is dequeued after step 4 has completed, so the current code decides its gate by
+// the capability state after `mid` — that, and nothing about timing, is what is compared
+// with the model and what the oracle requires (a tag section only if message-tags is
+// acknowledged and not deleted/disabled at that point).
+//
+// A case is: kinds of the B events (t/e/n), the number of pre lines, then the CAP lines.
+
+type racePeer struct {
+	conn net.Conn
+	buf  []byte
+}
+
+func (p *racePeer) readSome(max int, d time.Duration) bool {
+	tmp := make([]byte, max)
+	p.conn.SetReadDeadline(time.Now().Add(d))
+	n, err := p.conn.Read(tmp)
+	p.buf = append(p.buf, tmp[:n]...)
+	return n > 0 && err == nil
+}
+
+// readN reads exactly n more bytes.
+func (p *racePeer) readN(n int, d time.Duration) bool {
+	deadline := time.Now().Add(d)
+	want := len(p.buf) + n
+	for len(p.buf) < want {
+		if !p.readSome(want-len(p.buf), time.Until(deadline)) {
+			return false
+		}
+	}
+	return true
+}
+
+// readUntil reads until some complete line contains marker.
+func (p *racePeer) readUntil(marker string, d time.Duration) bool {
+	deadline := time.Now().Add(d)
+	for {
+		if i := strings.Index(string(p.buf), marker); i >= 0 && strings.Contains(string(p.buf[i:]), "\n") {
+			return true
+		}
+		if !p.readSome(4096, time.Until(deadline)) {
+			return false
+		}
+	}
+}
+
+func raceTags(kind byte) girc.Tags {
+	switch kind {
+	case 't':
+		return girc.Tags{"k": "v"}
+	case 'e':
+		return girc.Tags{}
+	}
+	return nil
+}
+
+func runTagsRace(c Case) Result {
+	if len(c) < 2 {
+		return Result{Obs: "?short-case"}
+	}
+	kinds := c[0]
+	npre := 0
+	for _, d := range c[1] {
+		if d < '0' || d > '9' {
+			return Result{Obs: "?bad-count"}
+		}
+		npre = npre*10 + int(d-'0')
+	}
+	evs := c[2:]
+	if npre > len(evs) || len(evs) > 12 || len(kinds) > 8 || c[1] == "" {
+		return Result{Obs: "?bad-count"}
+	}
+
+	cfg := capCfg{supported: map[string][]string{}}.girc()
+	cfg.RecoverFunc = func(*girc.Client, *girc.HandlerError) {}
+	client := girc.New(cfg)
+	in, out := net.Pipe()
+	done := make(chan error, 1)
+	go func() { done <- client.MockConnect(out) }()
+	defer func() {
+		client.Close()
+		go io.Copy(io.Discard, in) // whatever is still being written
+		select {
+		case <-done:
+		case <-time.After(20 * time.Second):
+		}
+		in.Close()
+	}()
+	p := &racePeer{conn: in}
+	const wait = 20 * time.Second
+	stall := func(where string) Result {
+		return Result{Obs: "?stall:" + where, Oracle: "stall: the scripted schedule did not make progress at: " + where, Sig: "stall"}
+	}
+	if !p.readUntil("USER ", wait) {
+		return stall("registration")
+	}
+	dl := time.Now().Add(wait)
+	for !client.IsConnected() && time.Now().Before(dl) {
+		time.Sleep(200 * time.Microsecond)
+	}
+
+	// the oracle's own ledger (IRCv3 reading), only message-tags matters
+	enabled := map[string]bool{}
+	feed := func(ev string) {
+		params := strings.Split(ev, "\n")
+		client.RunHandlers(&girc.Event{Source: &girc.Source{Name: "srv"}, Command: girc.CAP, Params: params})
+		if len(params) < 2 {
+			return
+		}
+		last := params[len(params)-1]
+		switch {
+		case params[1] == "ACK" && len(params) == 3:
+			for _, tok := range strings.Split(last, " ") {
+				if strings.HasPrefix(tok, "-") {
+					delete(enabled, tok[1:])
+				} else {
+					enabled[tok] = true
+				}
+			}
+		case params[1] == "DEL":
+			for _, tok := range strings.Split(last, " ") {
+				delete(enabled, capTokenName(tok))
+			}
+		}
+	}
+
+	for _, ev := range evs[:npre] {
+		feed(ev)
+	}
+	client.Send(&girc.Event{Command: girc.PRIVMSG, Params: []string{"#v", "fence0"}})
+	if !p.readUntil("fence0", wait) {
+		return stall("fence0")
+	}
+	allowedA := enabled["message-tags"]
+
+	markA := len(p.buf)
+	client.Send(&girc.Event{Command: girc.PRIVMSG, Params: []string{"#v", "evA"}, Tags: girc.Tags{"k": "v"}})
+	if !p.readN(3, wait) {
+		return stall("first bytes of A")
+	}
+	// sendLoop is inside the write of A; everything from here on is queued behind it
+	for j := 0; j < len(kinds); j++ {
+		client.Send(&girc.Event{Command: girc.PRIVMSG, Params: []string{"#v", fmt.Sprintf("evB%d.", j)}, Tags: raceTags(kinds[j])})
+	}
+	for _, ev := range evs[npre:] {
+		feed(ev)
+	}
+	allowedB := enabled["message-tags"]
+	client.Send(&girc.Event{Command: girc.PRIVMSG, Params: []string{"#v", "fence1"}})
+	if !p.readUntil("fence1", wait) {
+		return stall("fence1")
+	}
+
+	tagged := map[string]bool{}
+	seen := map[string]bool{}
+	for _, l := range strings.Split(string(p.buf[markA:]), "\n") {
+		l = strings.TrimRight(l, "\r")
+		body := l
+		if strings.HasPrefix(l, "@") {
+			if i := strings.IndexByte(l, ' '); i >= 0 {
+				body = l[i+1:]
+			}
+		}
+		if strings.HasPrefix(body, "PRIVMSG #v ") {
+			m := strings.TrimPrefix(strings.TrimPrefix(body, "PRIVMSG #v "), ":")
+			seen[m] = true
+			tagged[m] = strings.HasPrefix(l, "@")
+		}
+	}
+	var oracle string
+	fail := func(cls, format string, a ...interface{}) {
+		if oracle == "" {
+			oracle = cls + ": " + fmt.Sprintf(format, a...)
+		}
+	}
+	if !seen["evA"] {
+		fail("line-lost", "event A was not written")
+	}
+	obs := "a=" + B(tagged["evA"]) + "|b="
+	if tagged["evA"] && !allowedA {
+		fail("tags-ungated", "A written with a tag section although message-tags was not enabled when it was sent")
+	}
+	for j := 0; j < len(kinds); j++ {
+		m := fmt.Sprintf("evB%d.", j)
+		if !seen[m] {
+			fail("line-lost", "event B%d was not written", j)
+		}
+		obs += B(tagged[m])
+		if tagged[m] && !allowedB {
+			fail("tags-ungated", "event B%d, queued behind a blocked write, left the queue after %q had been handled and still carries its tag section", j, evs[npre:])
+		}
+	}
+	return Result{Obs: obs, Oracle: oracle, Sig: fmt.Sprintf("pre=%v/mid=%v/%d", allowedA, allowedB, len(kinds))}
+}
+
+var (
+	tagsRacePre = [][]string{
+		{},
+		{"*\nLS\nmessage-tags", "me\nACK\nmessage-tags"},
+		{"*\nLS\nmessage-tags batch", "me\nACK\nbatch message-tags"},
+		{"*\nLS\nmessage-tags", "me\nACK\nmessage-tags", "me\nDEL\nmessage-tags"},
+		{"me\nACK\nmessage-tags"},
+	}
+	tagsRaceMid = [][]string{
+		{},
+		{"me\nDEL\nmessage-tags"},
+		{"me\nACK\n-message-tags"},
+		{"me\nDEL\nbatch"},
+		{"me\nDEL\nmessage-tags", "me\nNEW\nmessage-tags", "me\nACK\nmessage-tags"},
+		{"*\nLS\nmessage-tags", "me\nACK\nmessage-tags"},
+		{"me\nDEL\nMESSAGE-TAGS"},
+		{"me\nNEW\nmessage-tags"},
+		{"me\nDEL\nbatch message-tags=x"},
+	}
+)
+
+func tagsRaceCase(kinds string, pre, mid []string) Case {
+	c := Case{kinds, fmt.Sprint(len(pre))}
+	c = append(c, pre...)
+	return append(c, mid...)
+}
+
+func init() {
+	Register(&Suite{
+		Name:       "cap.tagsrace",
+		Prop:       []string{"C08"},
+		Exhaustive: "every pair of 5 capability states before the blocked write and 9 CAP scripts handled during it (45 schedules), three queued events (tags, empty map, nil) each",
+		Fixed: func() []Case {
+			var out []Case
+			for _, pre := range tagsRacePre {
+				for _, mid := range tagsRaceMid {
+					out = append(out, tagsRaceCase("tne", pre, mid))
+				}
+			}
+			return out
+		},
+		Gen: func(r *rand.Rand) Case {
+			kinds := "t" + RandBytes(r, r.Intn(4), "tten")
+			pre := tagsRacePre[r.Intn(len(tagsRacePre))]
+			mid := append([]string{}, tagsRaceMid[r.Intn(len(tagsRaceMid))]...)
+			if r.Intn(3) == 0 {
+				mid = append(mid, tagsRaceMid[r.Intn(len(tagsRaceMid))]...)
+			}
+			return tagsRaceCase(kinds, pre, mid)
+		},
+		Run: runTagsRace,
 	})
 }
